@@ -44,6 +44,44 @@ fn main() {
             0
         }
         "replay" => checks::replay(&args[2]),
+        "find-underpromo" => {
+            // helper used once to pick roots whose only mate in one is an under-promotion
+            use refchess::{sq, Color, Kind, Pos};
+            let mut found = 0;
+            'outer: for pf in 0..8 {
+                for extra in [Kind::Q, Kind::R, Kind::B, Kind::N] {
+                    for es in 0..64u8 {
+                        for wk in 0..64u8 {
+                            for bk in 40..64u8 {
+                                let mut p = Pos::empty();
+                                let ps = sq(pf, 6);
+                                if [es, wk, bk].contains(&ps) || es == wk || es == bk || wk == bk || [es, wk, bk].contains(&sq(pf, 7)) {
+                                    continue;
+                                }
+                                p.board[ps as usize] = Some((Color::W, Kind::P));
+                                p.board[es as usize] = Some((Color::W, extra));
+                                p.board[wk as usize] = Some((Color::W, Kind::K));
+                                p.board[bk as usize] = Some((Color::B, Kind::K));
+                                p.side = Color::W;
+                                if !p.is_legal_position() {
+                                    continue;
+                                }
+                                let ms = p.legal_moves();
+                                let mates: Vec<_> = ms.iter().filter(|m| p.apply(m).is_checkmate()).collect();
+                                if mates.len() == 1 && matches!(mates[0].promo, Some(Kind::N) | Some(Kind::B)) {
+                                    println!("{} only mate: {}", p.to_fen(), mates[0].uci());
+                                    found += 1;
+                                    if found >= 12 {
+                                        break 'outer;
+                                    }
+                                }
+                            }
+                        }
+                    }
+                }
+            }
+            0
+        }
         prop => {
             let tier = args.get(2).map(|s| s.as_str()).unwrap_or("quick");
             let seed: u64 = std::env::var("VERIF_SEED").ok().and_then(|s| s.parse().ok()).unwrap_or(0);
